@@ -355,8 +355,9 @@ pub struct PriorityRequestQueue<T: HttpClient> {
     max_concurrent: usize,
     /// HTTP client for executing requests
     client: Arc<T>,
-    /// Request completion channel
-    completion_tx: mpsc::UnboundedSender<(u64, StreamingResult<Bytes>)>,
+    /// Request completion channel (the queue's own sender is dropped by `shutdown`)
+    #[allow(clippy::type_complexity)]
+    completion_tx: std::sync::Mutex<Option<mpsc::UnboundedSender<(u64, StreamingResult<Bytes>)>>>,
     #[allow(clippy::type_complexity)]
     completion_rx: Arc<RwLock<mpsc::UnboundedReceiver<(u64, StreamingResult<Bytes>)>>>,
     /// Request ID counter
@@ -366,7 +367,7 @@ pub struct PriorityRequestQueue<T: HttpClient> {
     /// Metrics
     metrics: Arc<StreamingMetrics>,
     /// Shutdown flag
-    shutdown: AtomicBool,
+    shutdown: Arc<AtomicBool>,
 }
 
 impl<T: HttpClient> PriorityRequestQueue<T> {
@@ -384,12 +385,12 @@ impl<T: HttpClient> PriorityRequestQueue<T> {
             active_requests: Arc::new(AtomicUsize::new(0)),
             max_concurrent,
             client,
-            completion_tx,
+            completion_tx: std::sync::Mutex::new(Some(completion_tx)),
             completion_rx: Arc::new(RwLock::new(completion_rx)),
             next_request_id: AtomicU64::new(1),
             bandwidth_monitor,
             metrics,
-            shutdown: AtomicBool::new(false),
+            shutdown: Arc::new(AtomicBool::new(false)),
         }
     }
 
@@ -413,75 +414,97 @@ impl<T: HttpClient> PriorityRequestQueue<T> {
 
     /// Try to process requests from queue
     async fn try_process_requests(&self) {
-        let current_active = self.active_requests.load(Ordering::Relaxed);
-        if current_active >= self.max_concurrent {
+        // After shutdown the queue has no sender any more and starts nothing
+        let Some(completion_tx) = self
+            .completion_tx
+            .lock()
+            .ok()
+            .and_then(|completion_tx| completion_tx.clone())
+        else {
             return;
-        }
+        };
 
+        // The counter is read again for every request started: it only goes up under this lock
         let mut queue = self.queue.write().await;
-        while current_active < self.max_concurrent && !queue.is_empty() {
-            if let Some(request) = queue.pop() {
-                self.active_requests.fetch_add(1, Ordering::Relaxed);
-                self.spawn_request_handler(request);
-            }
+        while !self.shutdown.load(Ordering::Relaxed)
+            && self.active_requests.load(Ordering::Relaxed) < self.max_concurrent
+        {
+            let Some(request) = queue.pop() else {
+                break;
+            };
+            self.active_requests.fetch_add(1, Ordering::Relaxed);
+            self.spawn_request_handler(request, completion_tx.clone());
         }
+        drop(queue);
     }
 
     /// Spawn request handler task
-    fn spawn_request_handler(&self, request: PrioritizedRequest) {
+    ///
+    /// The task owns one of the `max_concurrent` slots: when its request is done it takes
+    /// over the next waiting request, and gives the slot back when nothing is waiting.
+    fn spawn_request_handler(
+        &self,
+        request: PrioritizedRequest,
+        completion_tx: mpsc::UnboundedSender<(u64, StreamingResult<Bytes>)>,
+    ) {
         let client = self.client.clone();
         let bandwidth_monitor = self.bandwidth_monitor.clone();
         let metrics = self.metrics.clone();
         let active_requests = self.active_requests.clone();
-        let completion_tx = self.completion_tx.clone();
         let queue_ref = self.queue.clone();
+        let shutdown = self.shutdown.clone();
 
         tokio::spawn(async move {
-            let start_time = Instant::now();
-            let request_id = request.id;
+            let mut next_request = Some(request);
 
-            debug!("Processing request {} for URL: {}", request_id, request.url);
+            while let Some(request) = next_request {
+                let start_time = Instant::now();
+                let request_id = request.id;
 
-            let result = client.get_range(&request.url, request.range).await;
-            let duration = start_time.elapsed();
+                debug!("Processing request {} for URL: {}", request_id, request.url);
 
-            // Record bandwidth if successful
-            if let Ok(ref bytes) = result {
-                let bytes_downloaded = bytes.len() as u64;
-                bandwidth_monitor
-                    .record_sample(bytes_downloaded, duration)
-                    .await;
-                metrics.record_download(bytes_downloaded, duration);
-            }
+                let result = client.get_range(&request.url, request.range).await;
+                let duration = start_time.elapsed();
 
-            // Send completion notification
-            let _ = completion_tx.send((request_id, result));
-
-            // Decrement active counter and try to process more requests
-            active_requests.fetch_sub(1, Ordering::Relaxed);
-
-            // Try to process more requests
-            let current_active = active_requests.load(Ordering::Relaxed);
-            if current_active < 10 {
-                // Some threshold to avoid excessive processing
-                let queue = queue_ref.write().await;
-                // This is a simplified check - in practice you'd want better coordination
-                if !queue.is_empty() {
-                    // Signal that more processing is needed
-                    // In a real implementation, you'd use a more sophisticated notification system
-                    drop(queue); // Explicitly drop to avoid unused variable warning
+                // Record bandwidth if successful
+                if let Ok(ref bytes) = result {
+                    let bytes_downloaded = bytes.len() as u64;
+                    bandwidth_monitor
+                        .record_sample(bytes_downloaded, duration)
+                        .await;
+                    metrics.record_download(bytes_downloaded, duration);
                 }
+
+                // Send completion notification
+                let _ = completion_tx.send((request_id, result));
+
+                // Take the next waiting request, or release the slot. Both happen under the
+                // queue lock, so an enqueue either sees the free slot or its request is taken here.
+                let mut queue = queue_ref.write().await;
+                next_request = if shutdown.load(Ordering::Relaxed) {
+                    None
+                } else {
+                    queue.pop()
+                };
+                if next_request.is_none() {
+                    active_requests.fetch_sub(1, Ordering::Relaxed);
+                }
+                drop(queue);
             }
         });
     }
 
-    /// Get next completed request
+    /// Get next completed request without waiting
+    #[allow(clippy::unused_async)] // async for symmetry with recv (public signature)
     pub async fn try_recv(&self) -> Option<(u64, StreamingResult<Bytes>)> {
-        let mut rx = self.completion_rx.write().await;
+        // A recv() that is waiting holds the receiver: then nothing is there to be taken
+        let mut rx = self.completion_rx.try_write().ok()?;
         rx.try_recv().ok()
     }
 
     /// Wait for next completed request
+    ///
+    /// Returns `None` after `shutdown` once every request in flight has been reported.
     pub async fn recv(&self) -> Option<(u64, StreamingResult<Bytes>)> {
         let mut rx = self.completion_rx.write().await;
         rx.recv().await
@@ -495,8 +518,14 @@ impl<T: HttpClient> PriorityRequestQueue<T> {
     }
 
     /// Shutdown the queue
+    ///
+    /// No further request is started (waiting requests stay in the queue). Requests in
+    /// flight still report their result; after the last one `recv` returns `None`.
     pub fn shutdown(&self) {
         self.shutdown.store(true, Ordering::Relaxed);
+        if let Ok(mut completion_tx) = self.completion_tx.lock() {
+            completion_tx.take();
+        }
     }
 }
 
